@@ -2,10 +2,14 @@
    Model: Model/LSML.v (hand-written from lsml.py; loss and gradient formulas are compared with the
    code's own _total_loss / _gradient on binary64, log det and the inverse being oracle inputs:
    props/c12.py).  The step search is modelled over ANY candidate oracle.
+   C12_source: _comparison_loss, _total_loss and _gradient as TRANSLATED from lsml.py on this run (gen/Src_lsml.v)
+   are the model's loss / total loss, each pass of the gradient loop adds the model's term of that constraint, and
+   with all constraints satisfied the translated gradient is P - M^-1; the descent loop of _fit is pinned as text.
    NOT mechanised: stationary point => global minimiser (convexity); stationarity itself and
    loss(result) <= loss(prior) are re-checked per fit. *)
 From Coq Require Import List Reals.
-From ML Require Import Ops Vec NP VecR MatR LinAlg LSML C12Proof C20Proof.
+From ML Require Import Ops Vec NP VecR MatR LinAlg NPNum LSML C12Proof C20Proof C12Src.
+From MLgen Require Import Src_lsml.
 Import ListNotations.
 Open Scope R_scope.
 
@@ -35,3 +39,28 @@ Proof.
         (conj lsml_satisfied_loss (conj lsml_satisfied_grad floor_form_pd))))).
 Qed.
 Print Assumptions C12_partial.
+
+(* the translated source (gen/Src_lsml.v) computes the model *)
+Definition C12_source_stmt : Prop :=
+  (forall d (w : Rv) (M vab vcd : Rm),
+     wfmR d d M -> Forall (wfvR d) vab -> Forall (wfvR d) vcd -> length w = length vab -> length vab = length vcd ->
+     @lsml_comparison_loss ROps w M vab vcd = @comparison_loss ROps M (zipq w vab vcd)) /\
+  (forall d (w : Rv) (logdet : R) (M vab vcd P : Rm),
+     wfmR d d M -> Forall (wfvR d) vab -> Forall (wfvR d) vcd -> length w = length vab -> length vab = length vcd ->
+     @lsml_total_loss ROps w 1 logdet M vab vcd P = @total_loss ROps M P logdet (zipq w vab vcd)) /\
+  (forall d (G M : Rm) (q : quadR) (x : Rv),
+     wfmR d d G -> wfvR d (qab q) -> wfvR d (qcd q) -> wfvR d x ->
+     mvmulR (@lsml_grad_step ROps G (qw q) (qab q) (@dM ROps M (qab q)) (qcd q) (@dM ROps M (qcd q))) x =
+       vaddR (mvmulR G x) (mvmulR (@grad_term ROps M q) x) /\
+     wfmR d d (@lsml_grad_step ROps G (qw q) (qab q) (@dM ROps M (qab q)) (qcd q) (@dM ROps M (qcd q)))) /\
+  (forall d (w : Rv) (Minv M vab vcd P : Rm),
+     wfmR d d M -> Forall (wfvR d) vab -> Forall (wfvR d) vcd -> length w = length vab -> length vab = length vcd ->
+     Forall (fun q => @violated ROps M q = false) (zipq w vab vcd) ->
+     @lsml_gradient ROps w Minv M vab vcd P = map2 vsubR P Minv).
+
+Theorem C12_source : C12_source_stmt.
+Proof.
+  exact (conj src_comparison_loss_eq (conj src_total_loss_eq (conj src_grad_step_action src_gradient_satisfied))).
+Qed.
+Print Assumptions C12_source.
+Definition C12_source_skeleton := lsml_skeleton_ok.
